@@ -153,11 +153,12 @@ func errText(err error) string {
 
 var c10Wrappers = []string{"@", "[@]", `{"k": @}`, "function(){@}()", "$map([1], function($v){@})", "[@][0]", "(@)", `{"k": [@]}.k`, "$append([], @)", "@ ~> function($r){$r}"}
 
-var c10EdgeNumbers = []string{"0", "-0", "1", "-1", "2", "-2", "10", "-10", "0.5", "3", "309", "1025", "1e308", "-1e308", "5e-324", "1e21"}
+var c10EdgeNumbers = []string{"0", "-0", "1", "-1", "2", "-2", "10", "-10", "0.5", "3", "309", "1025", "1e308", "-1e308", "5e-324", "1e21", "-308", "308", "1.7e308", "-1.7e308", "1.7976931348623157e308"}
 
 var c10NumShapes = []string{"$power(X, Y)", "X * Y", "X / Y", "X + Y", "X - Y", "X % Y", "$sum([X, Y])", "$average([X, Y])", "$max([X, Y])", "$min([X, Y])", "$sqrt(X)", "$abs(X)",
 	"$floor(X)", "$ceil(X)", "-X", "$number(X)", "$string(X)", "$formatBase(X)", "[X..X]", "$power(X, Y) * Y", "$sum([X, X, Y])", "$reduce([X, Y], function($a,$b){$a*$b})",
-	"$map([X], function($v){$v * Y})", "{\"r\": X * Y}", "$round(X)", "$formatNumber(X, \"0\")"}
+	"$map([X], function($v){$v * Y})", "{\"r\": X * Y}", "$round(X)", "$formatNumber(X, \"0\")", "$round(X, Y)", "$round(X * Y, -1)", "$number($string(X))", "$number($formatNumber(X, \"0\"))",
+	"$sum([X, Y, Y])", "$average([X, Y, Y, Y])", "X + Y + Y", "$toMillis($fromMillis(X))", "$abs(X) + $abs(Y)", "$floor(X / Y)", "$max([X * Y, 1])"}
 
 func init() {
 	nb := len(allBuiltins)
